@@ -1378,6 +1378,8 @@ func main() {
 			decisionFunc("driver/netconf/message.go", "message.serialize"),
 			coqStrList(paramNames("driver/netconf/message.go", "message.serialize")),
 			coqStrList(callArgs("driver/netconf/rpc.go", "Driver.sendRPC", "serialize")))
+		fmt.Fprintf(&sw, "(* driver/netconf/capabilities.go Driver.ServerHasCapability *)\nDefinition server_has_capability_code : list dstmt :=\n  %s.\n",
+			decisionFunc("driver/netconf/capabilities.go", "Driver.ServerHasCapability"))
 		// the loops that apply an option list to an object (C19)
 		var ol []string
 		for _, lf := range [][2]string{{"driver/generic/driver.go", "NewDriver"}, {"driver/network/driver.go", "NewDriver"}, {"driver/netconf/driver.go", "NewDriver"},
